@@ -58,7 +58,7 @@ func binSize(t types.Type) int64 {
 }
 
 func checkC13(ctx *Ctx, r *Report, tier string) {
-	r.Explain = "Record layout sizes computed from the struct types (as encoding/binary lays them out) and compared with the loader's size equation; byte order of every binary.Read/Write; the field-by-field provenance of the 50-byte record in both writers and the inverse mapping in the loader (symbolic snapshots at the binary.Write/Read calls); counter/flush/seek/header ordering; closed form of the facet normal; truncating file creation. Float32 rounding, the ASCII grammar and the OS are not decided."
+	r.Explain = "Record layout sizes computed from the struct types (as encoding/binary lays them out) and compared with the loader's size equation; byte order of every binary.Read/Write; the field-by-field provenance of the 50-byte record in both writers and the inverse mapping in the loader (symbolic snapshots at the binary.Write/Read calls); counter/flush/seek/header ordering; closed form of the facet normal; truncating file creation. Float32 rounding, the ASCII grammar and the OS are not decided. The text loader parses at float64 precision and the batch writer writes one record per counted triangle."
 	r.Trusted = []string{"go/types", "go/ssa", "sdfxlint symbolic evaluator", "encoding/binary writes fixed-size fields in declaration order without padding", "bufio/os semantics"}
 	r.Assume = []string{"float32 conversion is the rounding the property speaks of"}
 	scope := ctx.Pkgs["render"].Types.Scope()
